@@ -49,6 +49,9 @@ RULE = (
     "and direction, twinned with contiguous copies. Ownership histories: after fit on C-contiguous float64 arrays (1-D / 2-D data, table "
     "views as coordinates) the caller detrends / reuses / negates the data buffer, shifts / overwrites the coordinates and scribbles on a "
     "returned prediction, then predicts with the earlier fitted gridder. "
+    "Lazily evaluated grids: Datasets whose variables are dask-backed (chunk(), chunked along northing / easting / both, one float variable "
+    "chunked and the others in memory; integer variables included): every variable of the result, computed, is NaN exactly where the "
+    "array-form mask is False; the input grid (values, laziness, chunks, attrs) is untouched; Dataset and variable attrs are kept. "
     "KNeighbors: k in {1,2,3,n-1,n,random}, reductions mean/median/min/max (+sum/ptp), data values unique per point, queries inside, "
     "outside and on the data, direct predict and nested through grid/scatter/profile/Chain/project_grid. median_distance: k=1..n-1. "
     "distance_mask: maxdist from the quantiles of the true nearest distances (also 0, huge, exactly a realised distance), array form "
@@ -69,6 +72,7 @@ ASSUMPTIONS = [
     "which of two equidistant neighbours KNeighbors uses is not specified: tied queries stay either-way",
     "the projection callables are pure functions (the oracle calls them itself on copies of the raveled inputs)",
     "containers are read positionally (np.asarray / np.ravel of each argument, as verde documents): element i of the data belongs to point i whatever the index labels say",
+    "grid variables are read with .values (which evaluates a lazy variable): the property is about the values the user gets, lazy or not; the values of the input grid are taken BEFORE the call",
     "a pickled / copied estimator is judged against the fit observed on the object it was made from (lineage declared by the workload)",
     "median_distance on more than 3000 points is judged by brute force on a subsample of a few hundred points (first 40, last 120, chunk borders, random); every value must be finite",
     "the fitted points/data are the arguments observed at KNeighbors.fit (C-order element sequence), predictions of estimators whose fit was not observed are skipped",
@@ -148,6 +152,11 @@ FLOORS = {
         "ownership:caller_overwrite_coordinates": 11, "ownership:caller_shift_coordinates": 12,
         "ownership:caller_scribble_on_prediction": 24, "ownership:2d_data": 5, "ownership:coordinates_are_views_of_one_table": 9,
         "ownership:table_columns_0_1": 1, "ownership:table_fortran_ordered_table": 1,
+        "eval:distance_mask.grid_input_untouched": 430, "class:grid_dask_backed_all_variables": 82,
+        "class:grid_dask_backed_some_variables_only": 18, "class:grid_dask_chunks_several_chunks": 83,
+        "class:grid_dask_chunks_single_chunk": 19, "class:grid_result_still_lazy": 105, "grid_lazy:chunk()": 19,
+        "grid_lazy:chunk_northing": 17, "grid_lazy:chunk_easting": 20, "grid_lazy:chunk_both_dims": 20,
+        "grid_lazy:one_variable_chunked_others_in_memory": 18,
     },
     "thorough": {
         "eval:KNeighbors.predict": 25500, "eval:median_distance": 5400, "eval:distance_mask.array": 7650,
@@ -223,7 +232,11 @@ FLOORS = {
         "ownership:caller_overwrite_coordinates": 165, "ownership:caller_shift_coordinates": 180,
         "ownership:caller_scribble_on_prediction": 360, "ownership:2d_data": 75,
         "ownership:coordinates_are_views_of_one_table": 135, "ownership:table_columns_0_1": 15,
-        "ownership:table_fortran_ordered_table": 15,
+        "ownership:table_fortran_ordered_table": 15, "eval:distance_mask.grid_input_untouched": 6450,
+        "class:grid_dask_backed_all_variables": 1230, "class:grid_dask_backed_some_variables_only": 270,
+        "class:grid_dask_chunks_several_chunks": 1245, "class:grid_dask_chunks_single_chunk": 285,
+        "class:grid_result_still_lazy": 1575, "grid_lazy:chunk()": 285, "grid_lazy:chunk_northing": 255,
+        "grid_lazy:chunk_easting": 300, "grid_lazy:chunk_both_dims": 300, "grid_lazy:one_variable_chunked_others_in_memory": 270,
     },
 }
 JOBS = {"quick": 1, "thorough": 8}
@@ -841,6 +854,22 @@ def install(tap, run):
             run.mark_nontrivial("median", c0, c1, k, repr(projection))
 
     # --------------------------------------------------------- distance_mask
+    def is_lazy(variable):
+        """Is the variable backed by a dask array (lazily evaluated)?"""
+        return type(variable.data).__module__.split(".")[0] == "dask"
+
+    def pre_mask(ev):
+        """Before the call: the grid's variable values (computed if lazy), laziness, chunks and attributes."""
+        grid = ev.args.get("grid")
+        if grid is None or not isinstance(grid, xr.Dataset):
+            return None
+        snap = {"attrs": dict(grid.attrs), "vars": {}, "coords": {str(c): np.array(grid.coords[c].values, copy=True) for c in grid.coords}}
+        for name in grid.data_vars:
+            var = grid[name]
+            snap["vars"][name] = {"values": np.array(var.values, copy=True), "lazy": is_lazy(var), "chunks": var.chunks,
+                                  "attrs": dict(var.attrs), "dtype": str(var.dtype)}
+        return snap
+
     def post_mask(ev):
         if ev.exc is not None:
             run.count("raised:distance_mask:" + type(ev.exc).__name__)
@@ -1005,6 +1034,40 @@ def install(tap, run):
                     run.violation("distance_mask.grid", "coordinate %r of the masked grid differs from the input grid" % dim,
                                   dict(witness, result=res), key="mask:grid:coords")
                     return
+            before_call = ev.pre or {"attrs": dict(grid.attrs), "vars": {}, "coords": {}}
+            lazy_in = [name for name in names if before_call["vars"].get(name, {}).get("lazy")]
+            if lazy_in:
+                run.count("class:grid_dask_backed_%s" % ("all_variables" if len(lazy_in) == len(names) else "some_variables_only"))
+                chunks = before_call["vars"][lazy_in[0]]["chunks"]
+                run.count("class:grid_dask_chunks_%s" % ("single_chunk" if all(len(c) == 1 for c in chunks) else "several_chunks"))
+                if any(is_lazy(res[name]) for name in names):
+                    run.count("class:grid_result_still_lazy")
+                else:
+                    run.count("class:grid_result_computed")
+            # the input grid must be untouched: values, laziness, chunks, attributes, coordinates
+            run.evaluated("distance_mask.grid_input_untouched")
+            for name, old in before_call["vars"].items():
+                now = grid[name]
+                if (not np.array_equal(np.asarray(now.values), old["values"], equal_nan=old["values"].dtype.kind == "f") or is_lazy(now) != old["lazy"]
+                        or now.chunks != old["chunks"] or dict(now.attrs) != old["attrs"] or str(now.dtype) != old["dtype"]):
+                    run.violation("distance_mask.grid_input_untouched", "variable %r of the INPUT grid was changed by the call" % name,
+                                  dict(witness, variable=name, values_before=old["values"], values_after=np.asarray(now.values)),
+                                  key="mask:grid:input_changed")
+                    break
+            if dict(grid.attrs) != before_call["attrs"]:
+                run.violation("distance_mask.grid_input_untouched", "attributes of the INPUT grid were changed", dict(witness), key="mask:grid:input_attrs")
+            # attributes are kept, on the Dataset and on every variable (as xarray's where does on a numpy-backed grid)
+            lost = None
+            if dict(res.attrs) != before_call["attrs"]:
+                lost = "Dataset attributes %r became %r" % (before_call["attrs"], dict(res.attrs))
+            else:
+                for name, old in before_call["vars"].items():
+                    if dict(res[name].attrs) != old["attrs"]:
+                        lost = "attributes of variable %r: %r became %r" % (name, old["attrs"], dict(res[name].attrs))
+                        break
+            if lost:
+                run.violation("distance_mask.grid", "attributes not kept: " + lost, dict(witness), key="mask:grid:attrs")
+                return
             if set(res.coords) != set(grid.coords):
                 run.violation("distance_mask.grid", "coordinates of the masked grid %s differ from those of the input grid %s"
                               % (sorted(res.coords), sorted(grid.coords)), dict(witness, result=res), key="mask:grid:coords_lost")
@@ -1023,8 +1086,8 @@ def install(tap, run):
                 else:
                     run.count("skipped:grid_variable_with_other_dims")
                     continue
-                before = np.asarray(vin.values)
-                after = np.asarray(vout.values)
+                before = before_call["vars"][name]["values"] if name in before_call["vars"] else np.asarray(vin.values)
+                after = np.asarray(vout.values)  # computes a lazy result: what the user gets once it is evaluated
                 if np.issubdtype(before.dtype, np.integer):
                     run.count("class:grid_integer_variable")
                 was_nan = np.isnan(before) if np.issubdtype(before.dtype, np.floating) else np.zeros(before.shape, bool)
@@ -1078,7 +1141,7 @@ def install(tap, run):
     tap.method(vneigh.KNeighbors, "fit", post=post_fit)
     tap.method(vneigh.KNeighbors, "predict", post=post_predict)
     tap.function(vdist, "median_distance", post=post_median)
-    tap.function(vmask, "distance_mask", post=post_mask)
+    tap.function(vmask, "distance_mask", post=post_mask, pre=pre_mask)
 
 
 # ----------------------------------------------------------------------
@@ -1557,13 +1620,43 @@ def _build_grid(rng, dn, de, nv, ev, variables, how=None):
     else:
         raise ValueError(how)
     grid.attrs["title"] = "c15"
+    grid[list(variables)[0]].attrs["units"] = "mGal"
     return grid, how
+
+
+def _chunked(run, rng, grid, dn, de):
+    """The same grid with lazily evaluated (dask-backed) variables: everything chunked, chunked along one or both dims, or mixed."""
+    import dask
+
+    dask.config.set(scheduler="synchronous")  # small graphs: no thread pool (only speed, same results)
+    mode = int(rng.integers(0, 5))
+    sizes = grid.sizes
+
+    def piece(dim):  # 2 to 5 chunks along the dimension
+        return int(max(1, -(-sizes[dim] // int(rng.integers(2, 6)))))
+
+    if mode == 0:
+        out, name = grid.chunk(), "chunk()"
+    elif mode == 1:
+        out, name = grid.chunk({dn: piece(dn)}), "chunk_northing"
+    elif mode == 2:
+        out, name = grid.chunk({dn: piece(dn), de: piece(de)}), "chunk_both_dims"
+    elif mode == 3:
+        out, name = grid.chunk({de: piece(de)}), "chunk_easting"
+    else:
+        floats = [v for v in grid.data_vars if grid[v].dtype.kind == "f"]
+        pick = floats[int(rng.integers(0, len(floats)))]
+        out, name = grid.assign({pick: grid[pick].chunk({dn: piece(dn)})}), "one_variable_chunked_others_in_memory"
+    run.count("grid_lazy:" + name)
+    return out
 
 
 def _masked_grid(run, verde, rng, data_coords, maxdist, dn, de, nv, ev, variables, projection):
     """distance_mask(grid=...) on one construction variant (a refusal of a valid Dataset escapes and is a violation)."""
     grid, how = _build_grid(rng, dn, de, nv, ev, variables)
     run.count("grid_built:" + how)
+    if rng.random() < 0.25:
+        grid = _chunked(run, rng, grid, dn, de)
     if rng.random() < 0.03:
         # A Dataset that also carries a 1-D data variable: verde refuses it on the unchanged tree (IndexError when it comes
         # first, ValueError from Dataset.where otherwise). Tolerated and counted; see the report.
